@@ -49,11 +49,29 @@ type s01Layer struct {
 	inner io.ReadWriteCloser
 	rd    io.Reader
 	wr    io.Writer
+	// limit layer: the close function the caller supplied; golib calls it once on Close
+	closeFn func() error
+	closed  bool
 }
 
 func (l *s01Layer) Read(p []byte) (int, error)  { return 0, io.EOF }
 func (l *s01Layer) Write(p []byte) (int, error) { return len(p), nil }
-func (l *s01Layer) Close() error                { return nil }
+func (l *s01Layer) Close() error {
+	if l.kind == "limit" {
+		if l.closed {
+			return nil
+		}
+		l.closed = true
+		if l.closeFn != nil {
+			return l.closeFn()
+		}
+		return nil
+	}
+	if l.inner != nil {
+		return l.inner.Close()
+	}
+	return nil
+}
 
 var s01 struct {
 	encFails bool
@@ -79,7 +97,7 @@ func s01StubWithCompression(rwc io.ReadWriteCloser) io.ReadWriteCloser {
 	return &s01Layer{kind: "comp", inner: rwc}
 }
 func s01StubWrapRWC(r io.Reader, w io.Writer, closeFn func() error) io.ReadWriteCloser {
-	return &s01Layer{kind: "limit", rd: r, wr: w}
+	return &s01Layer{kind: "limit", rd: r, wr: w, closeFn: closeFn}
 }
 func s01StubJoin(a, b io.ReadWriteCloser) (int64, int64, []error) {
 	s01.joins++
@@ -258,6 +276,10 @@ func VerifC01HTTPRealConn() {
 		return
 	}
 	zzverif.Assert(len(w1.started) == 1 && w1.started[0].ProxyName == "h1", "C01.start.announces-this-proxy")
+	if len(w1.started) == 1 {
+		// the vhost path knows only the user's address: it must still be announced
+		zzverif.Assert(w1.started[0].SrcAddr == "9.9.9.9" && w1.started[0].SrcPort == 4321, "C01.start.http-announces-the-user's-real-address")
+	}
 	kinds, keyOK, limitedBoth, ends := s01Chain(c, w1)
 	want := ""
 	if bp.limiter != nil {
@@ -275,5 +297,9 @@ func VerifC01HTTPRealConn() {
 		zzverif.Assert(limitedBoth, "C02.tunnel.both-directions-limited-over-the-same-stack")
 		zzverif.Reach("C01.http.limited")
 	}
+	// closing the connection handed to the reverse proxy closes the work connection underneath
+	zzverif.Assert(w1.closed == 0, "C02.tunnel.work-conn-open-while-in-use")
+	_ = c.Close()
+	zzverif.Assert(w1.closed >= 1, "C10.http.closing-the-real-conn-closes-the-work-conn")
 	zzverif.Reach("C01.http.conn")
 }
